@@ -24,7 +24,7 @@ LEVEL_NOTE = "Trusted: vlib/model/table.py (self-tested). Not generated: empty t
 DESIGN_REF = "DESIGN.md §3 C18"
 ASSUMPTIONS = ["table file syntax HEX=text, one entry per line"]
 
-ALPHA = "abcxy [="
+ALPHA = "abcxy [=-"
 UNKNOWN = "Zq#"
 
 
@@ -114,6 +114,11 @@ def _build(rng):
     entries = _table(rng, family)
     if family == "general":
         entries = _with_backslash_n(rng, entries)
+        if rng.random() < 0.3 and entries:
+            # an entry whose text looks like a range is an entry like any other
+            t = rng.choice(["a-c", "a-b", "b-y", "x-y", "a-a", "c-a"])
+            if all(e[0] != t for e in entries):
+                entries.append([t, bytes([0x80 + len(entries) % 0x70, rng.randrange(256), 0x5A]).hex()])
     other = _table(rng, "general")
     esc = family == "general" or rng.random() < 0.3
     strings = [_string(rng, entries, escapes=esc) for _ in range(5)]
